@@ -102,7 +102,7 @@ struct ConcRun {
         void init(Rep& R) {
             gt1.alloc(576); g1.alloc(144); g2.alloc(288); g1a.alloc(R.sz(JV_SZ_G1A)); key.alloc(R.sz(JV_SZ_WK_SK)); keyb.alloc(4 * R.sz(JV_SZ_WK_FREESLOT));
             ct.alloc(R.sz(JV_SZ_WK_CT)); sig.alloc(R.sz(JV_SZ_WK_SIG)); params.alloc(R.sz(JV_SZ_WK_PARAMS)); paramsh.alloc(3 * R.sz(JV_SZ_G1));
-            ap.alloc(2 * std::max(R.jv_pair_size(0, 0), R.jv_pair_size(1, 0))); pp.alloc(std::max(R.jv_pair_size(0, 1), R.jv_pair_size(1, 1))); lqct.alloc(R.sz(JV_SZ_LQ_CT)); lqsk.alloc(R.sz(JV_SZ_LQ_SK)); lqparams2.alloc(R.sz(JV_SZ_LQ_PARAMS)); lqid2.alloc(R.sz(JV_SZ_LQ_ID)); lqmsk2.alloc(R.sz(JV_SZ_LQ_MSK));
+            ap.alloc(2 * std::max(R.jv_pair_size(0, 0), R.jv_pair_size(1, 0))); pp.alloc(std::max(R.jv_pair_size(0, 1), R.jv_pair_size(1, 1))); memset(ap.p, 0xEE, ap.n); memset(pp.p, 0xEE, pp.n); lqct.alloc(R.sz(JV_SZ_LQ_CT)); lqsk.alloc(R.sz(JV_SZ_LQ_SK)); lqparams2.alloc(R.sz(JV_SZ_LQ_PARAMS)); lqid2.alloc(R.sz(JV_SZ_LQ_ID)); lqmsk2.alloc(R.sz(JV_SZ_LQ_MSK));
             g2a.alloc(R.sz(JV_SZ_G2A)); key2.alloc(R.sz(JV_SZ_WK_SK)); keyb2.alloc(4 * R.sz(JV_SZ_WK_FREESLOT)); pre.alloc(R.sz(JV_SZ_WK_PRE)); bytes.alloc(4096);
             stream.reqs.reserve(4096);
         }
